@@ -119,6 +119,28 @@ pub fn run<W: Write>(out: &mut W) {
             }
         }
     }
+    // ... and seed VALUES: the verdict depends on the PRESENCE of a seed only, whatever scalar it is (0, 1, -1, 2^252, a square, ...)
+    for cap in [1usize, 2, 8] {
+        let params = RangeParameters::<FM>::init(4, cap, FM::pedersen(1)).unwrap();
+        for count in [1usize, 2, 4, 8, 3] {
+            let seeds = [
+                ("seed=0", Scalar::ZERO),
+                ("seed=1", Scalar::ONE),
+                ("seed=-1", -Scalar::ONE),
+                ("seed=2^252", (0..252).fold(Scalar::ONE, |a, _| a + a)),
+                ("seed=square", Scalar::from(0x9e3779b97f4a7c15u64) * Scalar::from(0x9e3779b97f4a7c15u64)),
+            ];
+            for (sname, sdv) in seeds {
+                let commitments: Vec<FM> = (0..count).map(|j| params.pc_gens().commit(&Scalar::from(j as u64 + 1), &[Scalar::from(3u64 + j as u64)]).unwrap()).collect();
+                let promises: Vec<Option<u64>> = vec![None; count];
+                let sd = Some(sdv);
+                let (c2, p2) = (commitments.clone(), promises.clone());
+                let r = catch_unwind(AssertUnwindSafe(|| RangeStatement::<FM>::init(params.clone(), commitments, promises, sd)));
+                let c = code(r, |s| s.commitments == c2 && s.minimum_value_promises == p2 && s.seed_nonce == sd && s.generators.bit_length() == 4);
+                rows.push(json!([cap, count, count, 1u8, c, sname]));
+            }
+        }
+    }
     writeln!(out, "{}", json!({"family": "statement", "rows": rows})).unwrap();
 
     // (c) witnesses: shapes of blinding counts
